@@ -9,7 +9,7 @@ package trend
 //@ ensures[C02] len(result) == max(0, len(c) - m.IdlePeriod())
 //@ ensures[C01] forall k :: 0 <= k && k < len(result) ==> result[k] == psum(c, k + m.Period) - psum(c, k)
 //@ ensures[C03] consumed(c) == len(c) && closed(result)
-//@ ensures[C04] forall k :: 0 <= k && k < len(result) ==> hor(result, k) <= hor(c, k + m.IdlePeriod())
+//@ ensures[C04] forall kk :: 0 <= kk && kk < len(result) ==> hor(result, kk) <= hor(c, kk + m.IdlePeriod())
 //@ lit#0 invariant sum == psum(cs[0], calls) - psum(cs[1], calls)
 //@ lit#0 yields psum(cs[0], calls+1) - psum(cs[1], calls+1)
 //@ use psum_shift(c, cs[0], 0)
@@ -20,7 +20,7 @@ package trend
 //@ ensures[C02] len(result) == max(0, len(c) - s.IdlePeriod())
 //@ ensures[C01] forall k :: 0 <= k && k < len(result) ==> result[k] == (psum(c, k + s.Period) - psum(c, k)) / s.Period
 //@ ensures[C03] consumed(c) == len(c) && closed(result)
-//@ ensures[C04] forall k :: 0 <= k && k < len(result) ==> hor(result, k) <= hor(c, k + s.IdlePeriod())
+//@ ensures[C04] forall kk :: 0 <= kk && kk < len(result) ==> hor(result, kk) <= hor(c, kk + s.IdlePeriod())
 
 // emaS(c,P,m,k): EMA recursion (value - prev) * m + prev seeded with the SMA of the first P values.
 //@ func Ema.Compute
@@ -28,7 +28,7 @@ package trend
 //@ ensures[C02] len(result) == max(0, len(c) - e.IdlePeriod())
 //@ ensures[C01] forall k :: 0 <= k && k < len(result) ==> result[k] == emaS(c, e.Period, e.Smoothing / (e.Period + 1), k)
 //@ ensures[C03] consumed(c) == len(c) && closed(result)
-//@ ensures[C04] forall k :: 0 <= k && k < len(result) ==> hor(result, k) <= hor(c, k + e.IdlePeriod())
+//@ ensures[C04] forall kk :: 0 <= kk && kk < len(result) ==> hor(result, kk) <= hor(c, kk + e.IdlePeriod())
 //@ loop#0 invariant e.Period <= consumed(c) && sent(result) == consumed(c) - e.Period + 1 && !closed(result)
 //@ loop#0 invariant multiplier == e.Smoothing / (e.Period + 1) && before == emaS(c, e.Period, multiplier, sent(result) - 1)
 //@ loop#0 invariant forall k :: 0 <= k && k < sent(result) ==> result[k] == emaS(c, e.Period, multiplier, k)
@@ -39,7 +39,7 @@ package trend
 //@ ensures[C02] len(result) == max(0, len(c) - r.IdlePeriod())
 //@ ensures[C01] forall k :: 0 <= k && k < len(result) ==> result[k] == rmaS(c, r.Period, k)
 //@ ensures[C03] consumed(c) == len(c) && closed(result)
-//@ ensures[C04] forall k :: 0 <= k && k < len(result) ==> hor(result, k) <= hor(c, k + r.IdlePeriod())
+//@ ensures[C04] forall kk :: 0 <= kk && kk < len(result) ==> hor(result, kk) <= hor(c, kk + r.IdlePeriod())
 //@ loop#0 invariant r.Period <= consumed(c) && sent(result) == consumed(c) - r.Period + 1 && !closed(result)
 //@ loop#0 invariant before == rmaS(c, r.Period, sent(result) - 1)
 //@ loop#0 invariant forall k :: 0 <= k && k < sent(result) ==> result[k] == rmaS(c, r.Period, k)
@@ -50,7 +50,7 @@ package trend
 //@ ensures[C02] len(result) == max(0, len(c) - s.IdlePeriod())
 //@ ensures[C01] forall k :: 0 <= k && k < len(result) ==> result[k] == rmaS(c, s.Period, k)
 //@ ensures[C03] consumed(c) == len(c) && closed(result)
-//@ ensures[C04] forall k :: 0 <= k && k < len(result) ==> hor(result, k) <= hor(c, k + s.IdlePeriod())
+//@ ensures[C04] forall kk :: 0 <= kk && kk < len(result) ==> hor(result, kk) <= hor(c, kk + s.IdlePeriod())
 //@ loop#0 invariant s.Period <= consumed(c) && sent(result) == consumed(c) - s.Period + 1 && !closed(result)
 //@ loop#0 invariant before == rmaS(c, s.Period, sent(result) - 1)
 //@ loop#0 invariant forall k :: 0 <= k && k < sent(result) ==> result[k] == rmaS(c, s.Period, k)
@@ -64,25 +64,25 @@ package trend
 //@ requires consumed(p0) == 0
 //@ ensures[C02] len(result) == max(0, len(p0) - self.IdlePeriod())
 //@ ensures[C03] consumed(p0) == len(p0) && closed(result)
-//@ ensures[C04] forall k :: 0 <= k && k < len(result) ==> hor(result, k) <= hor(p0, k + self.IdlePeriod())
+//@ ensures[C04] forall kk :: 0 <= kk && kk < len(result) ==> hor(result, kk) <= hor(p0, kk + self.IdlePeriod())
 
 //@ func MovingMax.Compute
 //@ requires m.Period >= 1 && consumed(c) == 0
 //@ ensures[C02] len(result) == max(0, len(c) - (m.IdlePeriod()))
 //@ ensures[C03] consumed(c) == len(c) && closed(result)
-//@ ensures[C04] forall k :: 0 <= k && k < len(result) ==> hor(result, k) <= hor(c, k + (m.IdlePeriod()))
+//@ ensures[C04] forall kk :: 0 <= kk && kk < len(result) ==> hor(result, kk) <= hor(c, kk + (m.IdlePeriod()))
 
 //@ func MovingMin.Compute
 //@ requires m.Period >= 1 && consumed(c) == 0
 //@ ensures[C02] len(result) == max(0, len(c) - (m.IdlePeriod()))
 //@ ensures[C03] consumed(c) == len(c) && closed(result)
-//@ ensures[C04] forall k :: 0 <= k && k < len(result) ==> hor(result, k) <= hor(c, k + (m.IdlePeriod()))
+//@ ensures[C04] forall kk :: 0 <= kk && kk < len(result) ==> hor(result, kk) <= hor(c, kk + (m.IdlePeriod()))
 
 //@ func Wma.Compute
 //@ requires w.Period >= 1 && consumed(values) == 0
 //@ ensures[C02] len(result) == max(0, len(values) - (w.IdlePeriod()))
 //@ ensures[C03] consumed(values) == len(values) && closed(result)
-//@ ensures[C04] forall k :: 0 <= k && k < len(result) ==> hor(result, k) <= hor(values, k + (w.IdlePeriod()))
+//@ ensures[C04] forall kk :: 0 <= kk && kk < len(result) ==> hor(result, kk) <= hor(values, kk + (w.IdlePeriod()))
 //@ lit#0 invariant rwf(window) && len(window.buffer) == w.Period
 //@ loop#0 invariant 0 <= i && i <= w.Period && rwf(window) && len(window.buffer) == w.Period
 
@@ -90,124 +90,124 @@ package trend
 //@ requires h.wma1.Period >= 1 && h.wma2.Period >= h.wma1.Period && h.wma3.Period >= 1 && consumed(values) == 0
 //@ ensures[C02] len(result) == max(0, len(values) - (h.IdlePeriod()))
 //@ ensures[C03] consumed(values) == len(values) && closed(result)
-//@ ensures[C04] forall k :: 0 <= k && k < len(result) ==> hor(result, k) <= hor(values, k + (h.IdlePeriod()))
+//@ ensures[C04] forall kk :: 0 <= kk && kk < len(result) ==> hor(result, kk) <= hor(values, kk + (h.IdlePeriod()))
 
 //@ func Dema.Compute
 //@ requires d.Ema1.Period >= 1 && d.Ema2.Period >= 1 && consumed(c) == 0
 //@ ensures[C02] len(result) == max(0, len(c) - (d.IdlePeriod()))
 //@ ensures[C03] consumed(c) == len(c) && closed(result)
-//@ ensures[C04] forall k :: 0 <= k && k < len(result) ==> hor(result, k) <= hor(c, k + (d.IdlePeriod()))
+//@ ensures[C04] forall kk :: 0 <= kk && kk < len(result) ==> hor(result, kk) <= hor(c, kk + (d.IdlePeriod()))
 
 //@ func Tema.Compute
 //@ requires t.Ema1.Period >= 1 && t.Ema2.Period >= 1 && t.Ema3.Period >= 1 && consumed(c) == 0
 //@ ensures[C02] len(result) == max(0, len(c) - (t.IdlePeriod()))
 //@ ensures[C03] consumed(c) == len(c) && closed(result)
-//@ ensures[C04] forall k :: 0 <= k && k < len(result) ==> hor(result, k) <= hor(c, k + (t.IdlePeriod()))
+//@ ensures[C04] forall kk :: 0 <= kk && kk < len(result) ==> hor(result, kk) <= hor(c, kk + (t.IdlePeriod()))
 
 //@ func Trima.Compute
 //@ requires t.Period >= 1 && consumed(c) == 0
 //@ ensures[C02] len(result) == max(0, len(c) - (t.IdlePeriod()))
 //@ ensures[C03] consumed(c) == len(c) && closed(result)
-//@ ensures[C04] forall k :: 0 <= k && k < len(result) ==> hor(result, k) <= hor(c, k + (t.IdlePeriod()))
+//@ ensures[C04] forall kk :: 0 <= kk && kk < len(result) ==> hor(result, kk) <= hor(c, kk + (t.IdlePeriod()))
 
 //@ func Trix.Compute
 //@ requires t.Period >= 1 && consumed(c) == 0
 //@ ensures[C02] len(result) == max(0, len(c) - (t.IdlePeriod()))
 //@ ensures[C03] consumed(c) == len(c) && closed(result)
-//@ ensures[C04] forall k :: 0 <= k && k < len(result) ==> hor(result, k) <= hor(c, k + (t.IdlePeriod()))
+//@ ensures[C04] forall kk :: 0 <= kk && kk < len(result) ==> hor(result, kk) <= hor(c, kk + (t.IdlePeriod()))
 
 //@ func Macd.Compute
 //@ requires 1 <= m.Ema1.Period && m.Ema1.Period <= m.Ema2.Period && m.Ema3.Period >= 1 && consumed(c) == 0
 //@ ensures[C02] len(result0) == max(0, len(c) - (m.IdlePeriod())) && len(result1) == max(0, len(c) - (m.IdlePeriod()))
 //@ ensures[C03] consumed(c) == len(c) && closed(result0) && closed(result1)
-//@ ensures[C04] forall k :: 0 <= k && k < len(result0) ==> hor(result0, k) <= hor(c, k + (m.IdlePeriod()))
-//@ ensures[C04] forall k :: 0 <= k && k < len(result1) ==> hor(result1, k) <= hor(c, k + (m.IdlePeriod()))
+//@ ensures[C04] forall kk :: 0 <= kk && kk < len(result0) ==> hor(result0, kk) <= hor(c, kk + (m.IdlePeriod()))
+//@ ensures[C04] forall kk :: 0 <= kk && kk < len(result1) ==> hor(result1, kk) <= hor(c, kk + (m.IdlePeriod()))
 
 // Apo has no IdlePeriod method; its formula (fast EMA - slow EMA) implies SlowPeriod-1
 //@ func Apo.Compute
 //@ requires 1 <= apo.FastPeriod && apo.FastPeriod <= apo.SlowPeriod && consumed(c) == 0
 //@ ensures[C02] len(result) == max(0, len(c) - (apo.SlowPeriod - 1))
 //@ ensures[C03] consumed(c) == len(c) && closed(result)
-//@ ensures[C04] forall k :: 0 <= k && k < len(result) ==> hor(result, k) <= hor(c, k + (apo.SlowPeriod - 1))
+//@ ensures[C04] forall kk :: 0 <= kk && kk < len(result) ==> hor(result, kk) <= hor(c, kk + (apo.SlowPeriod - 1))
 
 //@ func MassIndex.Compute
 //@ requires m.Ema1.Period >= 1 && m.Ema2.Period >= 1 && m.MovingSum.Period >= 1 && consumed(highs) == 0 && consumed(lows) == 0 && len(highs) == len(lows)
 //@ ensures[C02] len(result) == max(0, len(highs) - (m.IdlePeriod()))
 //@ ensures[C03] consumed(highs) == len(highs) && consumed(lows) == len(lows) && closed(result)
-//@ ensures[C04] forall k :: 0 <= k && k < len(result) ==> hor(result, k) <= max(hor(highs, k + (m.IdlePeriod())), hor(lows, k + (m.IdlePeriod())))
+//@ ensures[C04] forall kk :: 0 <= kk && kk < len(result) ==> hor(result, kk) <= max(hor(highs, kk + (m.IdlePeriod())), hor(lows, kk + (m.IdlePeriod())))
 
 //@ func Mls.Compute
 //@ requires m.Sum.Period >= 1 && consumed(x) == 0 && consumed(y) == 0 && len(x) == len(y)
 //@ ensures[C02] len(result0) == max(0, len(x) - (m.IdlePeriod())) && len(result1) == max(0, len(x) - (m.IdlePeriod()))
 //@ ensures[C03] consumed(x) == len(x) && consumed(y) == len(y) && closed(result0) && closed(result1)
-//@ ensures[C04] forall k :: 0 <= k && k < len(result0) ==> hor(result0, k) <= max(hor(x, k + (m.IdlePeriod())), hor(y, k + (m.IdlePeriod())))
-//@ ensures[C04] forall k :: 0 <= k && k < len(result1) ==> hor(result1, k) <= max(hor(x, k + (m.IdlePeriod())), hor(y, k + (m.IdlePeriod())))
+//@ ensures[C04] forall kk :: 0 <= kk && kk < len(result0) ==> hor(result0, kk) <= max(hor(x, kk + (m.IdlePeriod())), hor(y, kk + (m.IdlePeriod())))
+//@ ensures[C04] forall kk :: 0 <= kk && kk < len(result1) ==> hor(result1, kk) <= max(hor(x, kk + (m.IdlePeriod())), hor(y, kk + (m.IdlePeriod())))
 
 //@ func Mlr.Compute
 //@ requires m.Mls.Sum.Period >= 1 && consumed(x) == 0 && consumed(y) == 0 && len(x) == len(y)
 //@ ensures[C02] len(result) == max(0, len(x) - (m.IdlePeriod()))
 //@ ensures[C03] consumed(x) == len(x) && consumed(y) == len(y) && closed(result)
-//@ ensures[C04] forall k :: 0 <= k && k < len(result) ==> hor(result, k) <= max(hor(x, k + (m.IdlePeriod())), hor(y, k + (m.IdlePeriod())))
+//@ ensures[C04] forall kk :: 0 <= kk && kk < len(result) ==> hor(result, kk) <= max(hor(x, kk + (m.IdlePeriod())), hor(y, kk + (m.IdlePeriod())))
 
 //@ func Tsi.Compute
 //@ requires consumed(closings) == 0
 //@ ensures[C02] len(result) == max(0, len(closings) - (t.IdlePeriod()))
 //@ ensures[C03] consumed(closings) == len(closings) && closed(result)
-//@ ensures[C04] forall k :: 0 <= k && k < len(result) ==> hor(result, k) <= hor(closings, k + (t.IdlePeriod()))
+//@ ensures[C04] forall kk :: 0 <= kk && kk < len(result) ==> hor(result, kk) <= hor(closings, kk + (t.IdlePeriod()))
 
 //@ func TypicalPrice.Compute
 //@ requires consumed(high) == 0 && consumed(low) == 0 && consumed(closing) == 0 && len(high) == len(low) && len(high) == len(closing)
 //@ ensures[C02] len(result) == max(0, len(high) - (0))
 //@ ensures[C03] consumed(high) == len(high) && consumed(low) == len(low) && consumed(closing) == len(closing) && closed(result)
-//@ ensures[C04] forall k :: 0 <= k && k < len(result) ==> hor(result, k) <= max(hor(high, k + (0)), max(hor(low, k + (0)), hor(closing, k + (0))))
+//@ ensures[C04] forall kk :: 0 <= kk && kk < len(result) ==> hor(result, kk) <= max(hor(high, kk + (0)), max(hor(low, kk + (0)), hor(closing, kk + (0))))
 //@ ensures[C01] forall k :: 0 <= k && k < len(result) ==> result[k] == (high[k] + low[k] + closing[k]) / 3
 
 //@ func WeightedClose.Compute
 //@ requires consumed(highs) == 0 && consumed(lows) == 0 && consumed(closes) == 0 && len(highs) == len(lows) && len(highs) == len(closes)
 //@ ensures[C02] len(result) == max(0, len(highs) - (0))
 //@ ensures[C03] consumed(highs) == len(highs) && consumed(lows) == len(lows) && consumed(closes) == len(closes) && closed(result)
-//@ ensures[C04] forall k :: 0 <= k && k < len(result) ==> hor(result, k) <= max(hor(highs, k + (0)), max(hor(lows, k + (0)), hor(closes, k + (0))))
+//@ ensures[C04] forall kk :: 0 <= kk && kk < len(result) ==> hor(result, kk) <= max(hor(highs, kk + (0)), max(hor(lows, kk + (0)), hor(closes, kk + (0))))
 //@ ensures[C01] forall k :: 0 <= k && k < len(result) ==> result[k] == (highs[k] + lows[k] + closes[k] * 2) / 4
 
 //@ func Vwma.Compute
 //@ requires v.Period >= 1 && consumed(closing) == 0 && consumed(volume) == 0 && len(closing) == len(volume)
 //@ ensures[C02] len(result) == max(0, len(closing) - (v.IdlePeriod()))
 //@ ensures[C03] consumed(closing) == len(closing) && consumed(volume) == len(volume) && closed(result)
-//@ ensures[C04] forall k :: 0 <= k && k < len(result) ==> hor(result, k) <= max(hor(closing, k + (v.IdlePeriod())), hor(volume, k + (v.IdlePeriod())))
+//@ ensures[C04] forall kk :: 0 <= kk && kk < len(result) ==> hor(result, kk) <= max(hor(closing, kk + (v.IdlePeriod())), hor(volume, kk + (v.IdlePeriod())))
 
 // Aroon has no IdlePeriod method; the moving max/min over Period values implies Period-1
 //@ func Aroon.Compute
 //@ requires a.Period >= 1 && consumed(high) == 0 && consumed(low) == 0 && len(high) == len(low)
 //@ ensures[C02] len(result0) == max(0, len(high) - (a.Period - 1)) && len(result1) == max(0, len(high) - (a.Period - 1))
 //@ ensures[C03] consumed(high) == len(high) && consumed(low) == len(low) && closed(result0) && closed(result1)
-//@ ensures[C04] forall k :: 0 <= k && k < len(result0) ==> hor(result0, k) <= max(hor(high, k + (a.Period - 1)), hor(low, k + (a.Period - 1)))
-//@ ensures[C04] forall k :: 0 <= k && k < len(result1) ==> hor(result1, k) <= max(hor(high, k + (a.Period - 1)), hor(low, k + (a.Period - 1)))
+//@ ensures[C04] forall kk :: 0 <= kk && kk < len(result0) ==> hor(result0, kk) <= max(hor(high, kk + (a.Period - 1)), hor(low, kk + (a.Period - 1)))
+//@ ensures[C04] forall kk :: 0 <= kk && kk < len(result1) ==> hor(result1, kk) <= max(hor(high, kk + (a.Period - 1)), hor(low, kk + (a.Period - 1)))
 
 //@ func Bop.Compute
 //@ requires consumed(opening) == 0 && consumed(high) == 0 && consumed(low) == 0 && consumed(closing) == 0 && len(opening) == len(high) && len(opening) == len(low) && len(opening) == len(closing)
 //@ ensures[C02] len(result) == max(0, len(opening) - (0))
 //@ ensures[C03] consumed(opening) == len(opening) && consumed(high) == len(high) && consumed(low) == len(low) && consumed(closing) == len(closing) && closed(result)
-//@ ensures[C04] forall k :: 0 <= k && k < len(result) ==> hor(result, k) <= max(hor(opening, k + (0)), max(hor(high, k + (0)), max(hor(low, k + (0)), hor(closing, k + (0)))))
+//@ ensures[C04] forall kk :: 0 <= kk && kk < len(result) ==> hor(result, kk) <= max(hor(opening, kk + (0)), max(hor(high, kk + (0)), max(hor(low, kk + (0)), hor(closing, kk + (0)))))
 //@ ensures[C01] forall k :: 0 <= k && k < len(result) ==> result[k] == (closing[k] - opening[k]) / (high[k] - low[k])
 
 //@ func Cci.Compute
 //@ requires c.Period >= 1 && consumed(highs) == 0 && consumed(lows) == 0 && consumed(closings) == 0 && len(highs) == len(lows) && len(highs) == len(closings)
 //@ ensures[C02] len(result) == max(0, len(highs) - (c.IdlePeriod()))
 //@ ensures[C03] consumed(highs) == len(highs) && consumed(lows) == len(lows) && consumed(closings) == len(closings) && closed(result)
-//@ ensures[C04] forall k :: 0 <= k && k < len(result) ==> hor(result, k) <= max(hor(highs, k + (c.IdlePeriod())), max(hor(lows, k + (c.IdlePeriod())), hor(closings, k + (c.IdlePeriod()))))
+//@ ensures[C04] forall kk :: 0 <= kk && kk < len(result) ==> hor(result, kk) <= max(hor(highs, kk + (c.IdlePeriod())), max(hor(lows, kk + (c.IdlePeriod())), hor(closings, kk + (c.IdlePeriod()))))
 
 //@ func Envelope.Compute
 //@ requires consumed(closings) == 0
 //@ ensures[C02] len(result0) == max(0, len(closings) - (e.IdlePeriod())) && len(result1) == max(0, len(closings) - (e.IdlePeriod())) && len(result2) == max(0, len(closings) - (e.IdlePeriod()))
 //@ ensures[C03] consumed(closings) == len(closings) && closed(result0) && closed(result1) && closed(result2)
-//@ ensures[C04] forall k :: 0 <= k && k < len(result0) ==> hor(result0, k) <= hor(closings, k + (e.IdlePeriod()))
-//@ ensures[C04] forall k :: 0 <= k && k < len(result1) ==> hor(result1, k) <= hor(closings, k + (e.IdlePeriod()))
-//@ ensures[C04] forall k :: 0 <= k && k < len(result2) ==> hor(result2, k) <= hor(closings, k + (e.IdlePeriod()))
+//@ ensures[C04] forall kk :: 0 <= kk && kk < len(result0) ==> hor(result0, kk) <= hor(closings, kk + (e.IdlePeriod()))
+//@ ensures[C04] forall kk :: 0 <= kk && kk < len(result1) ==> hor(result1, kk) <= hor(closings, kk + (e.IdlePeriod()))
+//@ ensures[C04] forall kk :: 0 <= kk && kk < len(result2) ==> hor(result2, kk) <= hor(closings, kk + (e.IdlePeriod()))
 
 //@ func Kdj.Compute
 //@ requires kdj.MovingMax.Period >= 1 && kdj.MovingMin.Period == kdj.MovingMax.Period && kdj.Sma1.Period >= 1 && kdj.Sma2.Period >= 1 && consumed(high) == 0 && consumed(low) == 0 && consumed(closing) == 0 && len(high) == len(low) && len(high) == len(closing)
 //@ ensures[C02] len(result0) == max(0, len(high) - (kdj.IdlePeriod())) && len(result1) == max(0, len(high) - (kdj.IdlePeriod())) && len(result2) == max(0, len(high) - (kdj.IdlePeriod()))
 //@ ensures[C03] consumed(high) == len(high) && consumed(low) == len(low) && consumed(closing) == len(closing) && closed(result0) && closed(result1) && closed(result2)
-//@ ensures[C04] forall k :: 0 <= k && k < len(result0) ==> hor(result0, k) <= max(hor(high, k + (kdj.IdlePeriod())), max(hor(low, k + (kdj.IdlePeriod())), hor(closing, k + (kdj.IdlePeriod()))))
-//@ ensures[C04] forall k :: 0 <= k && k < len(result1) ==> hor(result1, k) <= max(hor(high, k + (kdj.IdlePeriod())), max(hor(low, k + (kdj.IdlePeriod())), hor(closing, k + (kdj.IdlePeriod()))))
-//@ ensures[C04] forall k :: 0 <= k && k < len(result2) ==> hor(result2, k) <= max(hor(high, k + (kdj.IdlePeriod())), max(hor(low, k + (kdj.IdlePeriod())), hor(closing, k + (kdj.IdlePeriod()))))
+//@ ensures[C04] forall kk :: 0 <= kk && kk < len(result0) ==> hor(result0, kk) <= max(hor(high, kk + (kdj.IdlePeriod())), max(hor(low, kk + (kdj.IdlePeriod())), hor(closing, kk + (kdj.IdlePeriod()))))
+//@ ensures[C04] forall kk :: 0 <= kk && kk < len(result1) ==> hor(result1, kk) <= max(hor(high, kk + (kdj.IdlePeriod())), max(hor(low, kk + (kdj.IdlePeriod())), hor(closing, kk + (kdj.IdlePeriod()))))
+//@ ensures[C04] forall kk :: 0 <= kk && kk < len(result2) ==> hor(result2, kk) <= max(hor(high, kk + (kdj.IdlePeriod())), max(hor(low, kk + (kdj.IdlePeriod())), hor(closing, kk + (kdj.IdlePeriod()))))
